@@ -41,6 +41,7 @@ func init() {
 	commands["lock"] = lockx.Run
 	commands["lock-close"] = lockx.CloseWindow
 	commands["lock-window"] = lockx.LockWindow
+	commands["lock-other-user"] = lockx.OtherUser
 	commands["lock-window-child"] = lockx.LockWindowChild
 	commands["lock-worker"] = lockx.Worker
 	commands["fidelity"] = fidx.Run
